@@ -208,9 +208,9 @@ def mn_do_div(ir, instr, rd, ra, rb):
     if has_o:
         over_expr = ExprCond(rb, ExprInt(0, 1), ExprInt(1, 1))
         if not has_u:
-            over_expr = over_expr | (ExprCond(ra ^ 0x80000000, ExprInt(0, 1),
+            over_expr = over_expr | (ExprCond(ra ^ ExprInt(0x80000000, 32), ExprInt(0, 1),
                                               ExprInt(1, 1)) &
-                                     ExprCond(rb ^ 0xFFFFFFFF, ExprInt(0, 1),
+                                     ExprCond(rb ^ ExprInt(0xFFFFFFFF, 32), ExprInt(0, 1),
                                               ExprInt(1, 1)))
         flags_update.append(ExprAssign(XER_OV, over_expr))
         flags_update.append(ExprAssign(XER_SO, XER_SO | over_expr))
